@@ -204,6 +204,24 @@ def expected : List Expect := [
   ⟨"Block", [0], true, fun _ => toks header ++ [.raw 4, .loop, .dyn "", .close]⟩
 ]
 
+/-- expectations checked against the *deep* (fully inlined) streams `Gen.C04.mirrorStreams` -/
+def expectedDeep : List Expect := [
+  ⟨"RegisterAsset", allVersions, true, fun _ => toks registerAsset⟩,
+  ⟨"WithdrawFromSideChain", allVersions, true, fun v => toks (withdrawFromSideChain v)⟩,
+  ⟨"TransferCrossChainAsset", allVersions, true, fun v => toks (transferCrossChainAsset v)⟩,
+  ⟨"DPOSIllegalProposals", allVersions, true, fun _ => toks dposIllegalProposals⟩,
+  ⟨"DPOSIllegalVotes", allVersions, true, fun _ => toks dposIllegalVotes⟩,
+  ⟨"SidechainIllegalData", allVersions, true, fun _ => toks sidechainIllegalData⟩,
+  ⟨"CRInfo", allVersions, true, fun v => toks (crInfo v)⟩,
+  ⟨"UnregisterCR", allVersions, true, fun v => toks (unregisterCR v)⟩,
+  ⟨"CRCProposalTracking", allVersions, true, fun v => toks (crcProposalTracking v)⟩,
+  ⟨"ReturnSideChainDepositCoin", allVersions, true, fun v => toks (returnSideChainDepositCoin v)⟩,
+  ⟨"VotesRealWithdrawPayload", allVersions, true, fun _ => toks votesRealWithdraw⟩,
+  ⟨"CreateNFT", allVersions, true, fun v => toks (createNFT v)⟩,
+  ⟨"NFTDestroyFromSideChain", allVersions, true, fun _ => toks nftDestroyFromSideChain⟩,
+  ⟨"RecordProposalResult", allVersions, true, fun _ => toks recordProposalResult⟩
+]
+
 /-- what `SerializeUnsigned` writes in front of what `DeserializeUnsigned` reads: the version byte
     (only when `tx.version >= TxVersion09`) and the type byte, both consumed by `GetTransactionByBytes` -/
 def txWriterHead : List Tok := [.other "if tx.version >= common2.TxVersion09", .raw 1, .raw 1]
@@ -297,6 +315,23 @@ mutual
   def hasFailCases : List (Nat × Ty) → Bool
     | [] => false
     | (_, ty) :: cs => hasFail ty || hasFailCases cs
+end
+
+/- does the schema contain `.fail` outside every list element?  (a `.fail` inside a list element
+   only bites when the list is non-empty) -/
+mutual
+  def hasFailOutsideList : Ty → Bool
+    | .fail => true
+    | .struct fs => hasFailOutsideListFields fs
+    | .list _ _ _ _ _ => false
+    | .tagged _ cs d => hasFailOutsideListCases cs || hasFailOutsideList d
+    | _ => false
+  def hasFailOutsideListFields : List Ty → Bool
+    | [] => false
+    | t :: ts => hasFailOutsideList t || hasFailOutsideListFields ts
+  def hasFailOutsideListCases : List (Nat × Ty) → Bool
+    | [] => false
+    | (_, ty) :: cs => hasFailOutsideList ty || hasFailOutsideListCases cs
 end
 
 /-- collapse runs of dynamic tokens (a dispatch switch followed by the dispatched call) -/
